@@ -60,8 +60,8 @@ type caseRun struct {
 	pendingBlk bool // a candidate's account was (un)blocked since A last recomputed the committee
 	knownShape bool
 	failed     bool
-	gov     bool // governance-focused profile: elected committee, quiet epochs, block/unblock of candidates
-	lastCmt string
+	gov        bool // governance-focused profile: elected committee, quiet epochs, block/unblock of candidates
+	lastCmt    string
 }
 
 func main() {
@@ -272,7 +272,7 @@ func (c *caseRun) run() {
 		forced := script != nil && script.restartBefore(h)
 		if (script == nil && s.Intn(16) < pRestart) || forced {
 			var change func(*config.Blockchain)
-			if script == nil && os.Getenv("LEDGER_NOFLIP") == "" && s.Chance(1, 3) {
+			if script == nil && s.Chance(1, 3) {
 				// Verification options are not persisted and may change across a restart. (RemoveUntraceableBlocks
 				// may not: it selects the MPT node format, a reopened database then fails with "key not found";
 				// the property quantifies over configurations, not over configuration changes, so that is not
@@ -309,7 +309,7 @@ func (c *caseRun) run() {
 		if script == nil && s.Intn(16) < pJunk {
 			c.junk(txs)
 		}
-		if c.gcSleep && h%11 == 0 && (h <= 44 || os.Getenv("LEDGER_NOCAP") != "") {
+		if c.gcSleep && h%11 == 0 && h <= 44 {
 			time.Sleep(1100 * time.Millisecond) // let B's persist timer fire: that is the only trigger of the GC
 			o.Count("B.gc-timer-waits")
 		}
@@ -544,7 +544,8 @@ func (c *caseRun) epochStart(h uint32) uint32 { return h - h%uint32(c.csize) }
 func (c *caseRun) diverged(h uint32, name, va, vb string) {
 	c.failed = true
 	cls := classOf(name)
-	// Shape of the known finding (DESIGN §6 item 13): at the end of some epoch replica A did not recompute the
+	// Shape of the finding fixed by d4da6a2 (DESIGN §6 item 13; a divergence of this shape is a regression of
+	// that fix and is no longer listed as known): at the end of some epoch replica A did not recompute the
 	// next committee (no vote-changing NEO event in the epoch) while B did (it had been restarted), and a
 	// registered candidate's own account was blocked/unblocked since A's last recomputation.
 	known := c.knownShape && (cls == "committee" || cls == "root" || cls == "storage" || cls == "aer" || cls == "balances" || cls == "invoke-getters" || cls == "enrollments" || cls == "addblock")
